@@ -28,14 +28,14 @@ ben("c01-join-wait-seqcst", ["C01"],
 
 # ---- F20: revert (a worker never looks at its global queue while its local queue stays non-empty)
 mut("f20-revert-global-poll", ["C01"], "worker/every-run-cycle-polls-global",
-    ("src/scheduler.rs", "                    run_coroutine(co);\n                    // see the comment of `GLOBAL_POLL_INTERVAL`\n                    ticks = ticks.wrapping_add(1);\n                    if ticks % GLOBAL_POLL_INTERVAL == 0 {\n                        self.collect_global(id);\n                    }\n                    continue 'work;",
-     "                    run_coroutine(co);\n                    let _ = ticks;\n                    continue 'work;"))
+    ("src/scheduler.rs", "                    ticks = ticks.wrapping_add(1);\n                    if ticks % GLOBAL_POLL_INTERVAL == 0 {\n                        self.collect_global(id);\n                    }\n                    if ticks >= IO_POLL_INTERVAL {",
+     "                    ticks = ticks.wrapping_add(1);\n                    if ticks >= IO_POLL_INTERVAL {"))
 mut("f20-counter-never-advances", ["C01"], "worker/every-run-cycle-polls-global",
-    ("src/scheduler.rs", "                    ticks = ticks.wrapping_add(1);\n                    if ticks % GLOBAL_POLL_INTERVAL == 0 {\n                        self.collect_global(id);\n                    }\n                    continue 'work;",
-     "                    ticks = ticks.wrapping_add(0);\n                    if ticks % GLOBAL_POLL_INTERVAL == 0 {\n                        self.collect_global(id);\n                    }\n                    continue 'work;"))
+    ("src/scheduler.rs", "                    ticks = ticks.wrapping_add(1);\n                    if ticks % GLOBAL_POLL_INTERVAL == 0 {\n                        self.collect_global(id);\n                    }\n                    if ticks >= IO_POLL_INTERVAL {",
+     "                    ticks = ticks.wrapping_add(0);\n                    if ticks % GLOBAL_POLL_INTERVAL == 0 {\n                        self.collect_global(id);\n                    }\n                    if ticks >= IO_POLL_INTERVAL {"))
 ben("f20-poll-every-iteration", ["C01"],
-    ("src/scheduler.rs", "                    ticks = ticks.wrapping_add(1);\n                    if ticks % GLOBAL_POLL_INTERVAL == 0 {\n                        self.collect_global(id);\n                    }\n                    continue 'work;",
-     "                    let _ = ticks;\n                    self.collect_global(id);\n                    continue 'work;"))
+    ("src/scheduler.rs", "                    if ticks % GLOBAL_POLL_INTERVAL == 0 {\n                        self.collect_global(id);\n                    }\n                    if ticks >= IO_POLL_INTERVAL {",
+     "                    self.collect_global(id);\n                    if ticks >= IO_POLL_INTERVAL {"))
 # ---- F21: revert (the local queue is not served after the io timer list)
 mut("f21-revert-run-after-timers", ["C18", "C08"], "select/local-queue-served-after-timers",
     ("src/io/sys/unix/epoll.rs", "        #[cfg(feature = \"io_timeout\")]\n        scheduler.run_queued_tasks(id);\n\n        Ok(next_expire)", "        Ok(next_expire)"))
@@ -97,6 +97,33 @@ mut("f29-elapsed-sampled-before-handlers", ["C08"], "sleep/relative-to-fresh-clo
 ben("f29-deadline-form", ["C08"],
     ("src/timeout_list.rs", "                    let elapsed = now().saturating_sub(start);\n                    if time > elapsed {\n                        thread::park_timeout(Duration::from_nanos(time - elapsed));\n                    }",
      "                    let deadline = start.saturating_add(time);\n                    let cur = now();\n                    if deadline > cur {\n                        thread::park_timeout(Duration::from_nanos(deadline - cur));\n                    }"))
+
+# ---- F30: revert (EventSender::yield_back returns into the bottom half of an event that was never sent)
+mut("f30-revert-yield-back-ignores-unsent", ["C16"], "yield-back/unsent-event-never-runs-bottom",
+    ("src/cqueue.rs", "        if get_co_para().is_some() && !std::thread::panicking() {\n            trigger_cancel_panic();\n        }", "        get_co_para();"))
+mut("f30-panic-when-resumed-by-poll", ["C16"], "yield-back/cancel-panic-only-if-event-not-sent",
+    ("src/cqueue.rs", "        if get_co_para().is_some() && !std::thread::panicking() {\n            trigger_cancel_panic();\n        }", "        if get_co_para().is_none() && !std::thread::panicking() {\n            trigger_cancel_panic();\n        }"))
+ben("f30-match-form", ["C16"],
+    ("src/cqueue.rs", "        if get_co_para().is_some() && !std::thread::panicking() {\n            trigger_cancel_panic();\n        }", "        if let Some(_e) = get_co_para() {\n            if !std::thread::panicking() {\n                trigger_cancel_panic();\n            }\n        }"))
+
+# ---- F31: revert (the coroutine_local initialiser runs while the map is mutably borrowed)
+mut("f31-init-under-borrow", ["C15"], "local/init-runs-unborrowed",
+    ("src/local.rs", "                    let mut value: Option<Box<dyn Opaque>> = Some(Box::new((self.__init)()));\n                    let mut data = data.borrow_mut();\n",
+     "                    let mut data = data.borrow_mut();\n                    let mut value: Option<Box<dyn Opaque>> = Some(Box::new((self.__init)()));\n"))
+mut("f31-init-in-insert-closure", ["C15"], "local/init-runs-unborrowed",
+    ("src/local.rs", "                    let mut value: Option<Box<dyn Opaque>> = Some(Box::new((self.__init)()));\n                    let mut data = data.borrow_mut();\n", "                    let mut data = data.borrow_mut();\n"),
+    ("src/local.rs", "or_insert_with(|| value.take().unwrap());", "or_insert_with(|| Box::new((self.__init)()));"))
+
+# ---- F32: revert (a worker never returns to its selector while its local queue stays non-empty)
+mut("f32-revert-run-budget", ["C01", "C17"], "worker/run-budget",
+    ("src/scheduler.rs", "                    if ticks >= IO_POLL_INTERVAL {\n                        return self.yield_to_selector(id);\n                    }\n                    continue 'work;\n                }\n                None => {",
+     "                    continue 'work;\n                }\n                None => {"))
+mut("f32-budget-exit-without-wakeup", ["C01"], "worker/",
+    ("src/scheduler.rs", "    fn yield_to_selector(&self, id: usize) {\n        self.get_selector().wakeup(id);\n    }", "    fn yield_to_selector(&self, id: usize) {\n        let _ = id;\n    }"))
+
+# ---- F33: revert (Cqueue is auto-Sync)
+mut("f33-revert-cqueue-not-sync", ["C16"], "Cqueue is not Sync",
+    ("src/cqueue.rs", "    _not_sync: PhantomData<Cell<()>>,", "    _not_sync: PhantomData<()>,"))
 
 # ---- F18: revert (nested run while the wait_kernel guard is held)
 mut("f18-revert-nested-run-under-guard", ["C01", "C02"], "no-nested-run-under-guard",
